@@ -3,6 +3,7 @@ import os
 
 from .. import core, grids, datarun
 from ..framework import Model, Stage
+from . import extras_common
 
 PID = "C18"
 RULE = ("parse cases = texts rendered by spec/TextFormat.tla (every partial ranking over <=3/4 elements x 108 variants: "
@@ -223,4 +224,5 @@ def stages(tier, rng, only=None):
            Stage("files", "Trace_Dataset", datarun.run_file,
                  lambda: file_cases(grids.datasets(3, 2) if tier == "quick" else grids.datasets(3, 3)),
                  lambda r: len(r["D"]) >= 2 or [] in r["D"], datarun.init)]
+    out += extras_common.c18_stages(tier, rng)      # specified behaviour outside the listed properties (drift only)
     return [s for s in out if not only or s.name == only]
